@@ -457,7 +457,7 @@ def dfa_complement(D: DFA) -> DFA:
     delta = D.delta
     q0 = D.q0
     F = D.F
-    return DFA(Q, Sigma, delta, q0, Q - F)
+    return DFA(set(Q), set(Sigma), dict(delta), q0, Q - F)
 
 
 def dfa_product(D1: DFA, D2: DFA, product_type: str) -> DFA:
